@@ -3,11 +3,12 @@ mod moudle;
 mod tests;
 mod value;
 
+use crate::sync::RwLock;
 use crate::{ActError, Result, ShareLock, Vars};
 use core::fmt;
 use rquickjs::{Context as JsContext, Ctx as JsCtx, FromJs, Runtime as JsRuntime};
 use serde::de::DeserializeOwned;
-use std::sync::{Arc, RwLock};
+use std::sync::Arc;
 
 use self::value::ActValue;
 
